@@ -468,6 +468,9 @@ def _solve(i):
 
 def _child(i, conn):
     try:
+        if _CFG.get("attempt") == 2:
+            z3.set_param("smt.random_seed", 11)      # the retry explores another search order
+            z3.set_param("sat.random_seed", 11)
         conn.send(_solve(i))
     except Exception as ex:   # pragma: no cover
         conn.send((i, "UNKNOWN", "z3", 0.0, {}, f"solver process failed: {type(ex).__name__}: {ex}"))
@@ -487,6 +490,20 @@ def discharge(obligations, timeout_s=10, jobs=None, use_cvc5=True):
     ctx = mp.get_context("fork")
     hard = 6 * 4 + 3 * timeout_s + 20          # all stages of _solve plus slack
     pending = list(range(len(_OBS)))
+    _run_pool(ctx, pending, jobs, hard)
+    # second attempt for the few obligations that ran out of time: z3's search is not deterministic across processes, and a verdict
+    # must not flip because the machine was busy (a retry can only turn UNKNOWN into a verdict, never the other way round)
+    again = [i for i, ob in enumerate(_OBS) if ob.result == "UNKNOWN" and "died" not in (ob.note or "")]
+    if 0 < len(again) <= 6:
+        for i in again:
+            _OBS[i].note = (_OBS[i].note + " | " if _OBS[i].note else "") + "retried"
+        _CFG["attempt"] = 2
+        _run_pool(ctx, again, jobs, hard)
+        _CFG["attempt"] = 1
+
+
+def _run_pool(ctx, pending, jobs, hard):
+    pending = list(pending)
     running = {}                                # index -> (process, conn, started)
 
     def finish(i, res, solver, secs, model, reason):
